@@ -180,6 +180,11 @@ func (w *world) witnessCase(accts map[string]witAccount, c witCase) {
 		if c.Prefix == "stranger-sig+key" || c.Prefix == "stranger-sig" {
 			who = "a stranger's key"
 		}
+		w.mu.Lock()
+		if len(w.accepted) < 400 {
+			w.accepted[fmt.Sprintf("N3 witness: account %s, invocation prefix %q + tail %s", c.V, c.Prefix, c.Tail)] = true
+		}
+		w.mu.Unlock()
 		w.viol("n3-witness-accepted-though-invalid:"+why,
 			fmt.Sprintf("request accepted as signed by account of verification script %s (%x) with invocation script prefix %q + tail %s (made by %s); reference: %s",
 				c.V, a.script, c.Prefix, c.Tail, who, why), tc)
